@@ -476,6 +476,10 @@ class Num(Val):
         self.base_uid = None    # uid of the matrix this one was derived from by transpose / conj
         self.q = None           # D4 modulation charge (see charge.py); only maintained when the interpreter runs with d4=True
         self.view_of = frozenset()   # may share memory with these caller-owned arrays (slices, asarray, transpose)
+        self.mid = None         # D8 memory identity: arrays with the same mid share storage
+        self.whole = True       # ... and hold the same elements in the same order (same object / zero-copy identity), not a partial view
+        self.rowof = None       # a row M[e] of a matrix with a block map: (blocks, e)
+        self.clob = None        # the storage was overwritten through another name: description of that write
         self.org = None         # index at which the array's natural origin sits (lag 0 of a correlation, zero of an arange)
         self.sz = sp.Integer(1)  # normalisation signature: product of explicit size factors applied so far (None = mixed)
         Num._uid += 1
@@ -487,6 +491,7 @@ class Num(Val):
         c = self.copy(seg=self.seg, segax=self.segax)
         c.taint = self.taint | t
         c.uid = self.uid        # the same value, only its dependence set grew
+        c.view_of, c.mid, c.whole, c.clob = self.view_of, self.mid, self.whole, self.clob
         return c
 
     def copy(self, **kw):
@@ -738,6 +743,10 @@ def num_join(a, b):
     r.ex = a.ex if (a.ex is not None and b.ex is not None and a.ex == b.ex) else None
     r.mirror = a.mirror if (b.zero or a.mirror == b.mirror) else (b.mirror if a.zero else False)
     r.sz = sz_join(a, b)
+    r.view_of = a.view_of | b.view_of
+    r.mid = a.mid if a.mid == b.mid else None
+    r.whole = a.whole and b.whole
+    r.clob = a.clob or b.clob
     if a.amap == 'bad' or b.amap == 'bad':
         r.amap = 'bad'
     elif a.amap or b.amap:
